@@ -1445,3 +1445,136 @@ def c17_corr(res, exe, driver, tier, seed, tmp):
                 "must come back complete, with and without a printer.")
     for c, impl, model, raw in out[:3]:
         res.samples.append({"keys": c.keys, "impl": " ## ".join(impl)[:300]})
+
+
+# ---------------------------------------------------------------- C16: the terminal is given back as found
+
+def c16_cases(tier, seed):
+    rng = random.Random(seed * 1901 + 37)
+    n = 2000 if tier == "thorough" else 160
+    cases = []
+    for _ in range(n):
+        mode = rng.choice(["emacs", "emacs", "vi"])
+        paste = rng.choice([1, 1, 0])
+        signals = rng.choice([0, 0, 1])
+        nreads = rng.choice([1, 2, 3, 4])
+        panic_at = rng.choice([None, None, 1, 2, 3])
+        chunks, keys, ends = [], [], []
+        for r in range(nreads):
+            prefix = [rng.choice(["a", "b", "é", "Left", "Home", "x", "(", "C-k", "Up"]) for _ in range(rng.randint(0, 4))]
+            end = rng.choice(["enter", "eof", "intr", "invalid", "helper_error", "tab_or_enter"])
+            if end == "intr" and signals:
+                end = "enter"
+            if end == "eof":
+                prefix = []
+            for k in prefix:
+                chunks.append(p_tty.key_bytes(k))
+                keys.append(k)
+            if end == "enter":
+                chunks.append(b"\r")
+            elif end == "eof":
+                chunks.append(b"\x04")
+            elif end == "intr":
+                chunks.append(b"\x03")
+            elif end == "invalid":
+                chunks.append(b"\xff")
+            elif end == "helper_error":
+                chunks += [b"#", b"#", b"\r"]
+            else:
+                chunks += [b"\t", b"\r"]        # the completer / the validator: where a scripted panic strikes
+            keys.append("<%s>" % end)
+            ends.append(end)
+            # in case the read is still open (a panic count not reached, Tab consumed...): close it
+            chunks.append(b"\r")
+            keys.append("Enter")
+        between = [rng.choice(["keep", "keep", "raw", "cooked"]) for _ in range(nreads * 3)]
+        meta = {"paste": paste, "signals": signals, "pause": 1, "between": between, "ends": ends,
+                "raw_initial": rng.random() < 0.4}
+        if panic_at:
+            meta["helper_panic_at"] = panic_at
+        c = Case(keys, mode=mode, timeout=0, prompt="> ", reads=nreads * 3, chunks=chunks, helper=True, validator="script",
+                 cands=["abc", "abd"], meta=meta)
+        cases.append(c)
+    return cases
+
+
+def _c16_job(job):
+    import ptydrive
+    exe, spec, chunks, raw_initial, between = job
+    for attempt in range(2):
+        try:
+            r = ptydrive.run_case(exe, spec, chunks, raw_initial=raw_initial, between_reads=between)
+            r.pop("termios_probe", None)
+            return r
+        except OSError as e:
+            last = e
+    return "OSError %s" % last
+
+
+def tio_key(t):
+    """termios.tcgetattr result -> comparable tuple (cc as bytes)"""
+    return (t[0], t[1], t[2], t[3], t[4], t[5], tuple(bytes(x) if not isinstance(x, int) else bytes([x]) for x in t[6]))
+
+
+def c16_corr(res, exe, driver, tier, seed, tmp):
+    import multiprocessing
+    cases = c16_cases(tier, seed)
+    jobs = []
+    for c in cases:
+        spec = c.spec() + "pause 1\n"
+        jobs.append((exe, spec, c.chunks, c.meta["raw_initial"], c.meta["between"]))
+    ctx = multiprocessing.get_context("fork")
+    with ctx.Pool(NPROC) as pool:
+        raws = pool.map(_c16_job, jobs, chunksize=max(1, len(jobs) // (NPROC * 8)))
+    stats = {"reads": 0, "ends": {}, "switched_between_reads": 0, "raw_initial": 0, "paste_on": 0, "signals_on": 0}
+    PON, POFF = b"\x1b[?2004h", b"\x1b[?2004l"
+    for c, raw in zip(cases, raws):
+        if isinstance(raw, str):
+            raise InfraError("pty driver: " + raw)
+        res.evaluations += 1
+        line = c.model_line(c.chunks)
+        rl = [l for l in raw["obs"] if l.startswith("R ")]
+        stops = raw["stops"]
+        stats["raw_initial"] += 1 if c.meta["raw_initial"] else 0
+        stats["paste_on"] += c.meta["paste"]
+        stats["signals_on"] += c.meta["signals"]
+        expect = tio_key(raw["termios_initial"])       # what was in force before the read
+        prev_out = 0
+        for k, st in enumerate(stops):
+            stats["reads"] += 1
+            how = rl[k].split(":")[0] if k < len(rl) else "?"
+            stats["ends"][how] = stats["ends"].get(how, 0) + 1
+            res.nontrivial.add((line, k))
+            if tio_key(st["found"]) != expect:
+                res.oracle_failures.append({"stream": "rawmode", "case": line, "keys": c.keys, "meta": {k2: v for k2, v in c.meta.items()},
+                                            "why": "termios: after read %d (%s) the terminal settings differ from those in force before it: %s vs %s" % (
+                                                k, rl[k] if k < len(rl) else "?", st["found"][:4], list(expect[:4]))})
+                break
+            out = raw["out"][prev_out:st["out_mark"]]
+            prev_out = st["out_mark"]
+            on, off = out.rfind(PON), out.rfind(POFF)
+            if c.meta["paste"]:
+                if on < 0 or off < on:
+                    res.oracle_failures.append({"stream": "rawmode", "case": line, "keys": c.keys, "meta": dict(c.meta),
+                                                "why": "paste: read %d (%s) switched bracketed paste on and did not switch it off again" % (
+                                                    k, rl[k] if k < len(rl) else "?")})
+                    break
+            elif on >= 0:
+                res.oracle_failures.append({"stream": "rawmode", "case": line, "keys": c.keys, "meta": dict(c.meta),
+                                            "why": "paste: bracketed paste switched on although disabled"})
+                break
+            if tio_key(st["left"]) != expect:
+                stats["switched_between_reads"] += 1
+            expect = tio_key(st["left"])
+        if not stops:
+            raise InfraError("rawmode: the child never paused after a read (%d results)" % len(rl))
+    res.distribution.update({"oracle": stats, "scripts": len(cases)})
+    res.rule = ("rawmode: 1-4 reads on one editor; each read is a short key prefix ended by Enter, C-d on an empty line, C-c, an "
+                "undecodable byte, a validator error, or Tab/Enter hitting a scripted helper panic at its k-th call; emacs and vi; "
+                "bracketed paste on/off; the signals option on/off; the terminal initially cooked or raw. The child stops itself "
+                "(SIGSTOP) after every read; the driver then reads the terminal settings with tcgetattr, compares them field by field "
+                "(flags, speeds, all control characters) with those in force before that read, checks that the last ESC[?2004h of the "
+                "read's output is followed by ESC[?2004l, and switches the terminal to raw or cooked before resuming (so a later read "
+                "must restore what IT found, not what the first read found).")
+    for c, raw in list(zip(cases, raws))[:3]:
+        res.samples.append({"keys": c.keys, "results": [l for l in raw["obs"] if l.startswith("R ")], "meta": {k: v for k, v in c.meta.items() if k != "between"}})
